@@ -45,6 +45,9 @@ pub struct AStatus {
     pub partition: Option<String>,
     pub extras: bool,
     pub shuffle: u64,
+    /// how fractional seconds are printed (see c14::ms_styled)
+    #[serde(default)]
+    pub dur_style: u8,
 }
 
 #[derive(Debug, Clone, Serialize, Deserialize)]
@@ -171,13 +174,13 @@ pub fn lines_of(reply: &Reply) -> Lines {
                 v.push(l("time", format!("{}:{}", s.elapsed_ms.unwrap_or(0) / 1000, d / 1000)));
             }
             if let Some(x) = s.elapsed_ms {
-                v.push(l("elapsed", ms(x)));
+                v.push(l("elapsed", crate::props::c14::ms_styled(x, s.dur_style)));
             }
             if let Some(x) = s.bitrate {
                 v.push(l("bitrate", x.to_string()));
             }
             if let Some(x) = s.duration_ms {
-                v.push(l("duration", ms(x)));
+                v.push(l("duration", crate::props::c14::ms_styled(x, s.dur_style >> 2)));
             }
             if s.extras {
                 v.push(l("audio", "44100:24:2".to_string()));
@@ -681,10 +684,10 @@ fn status() -> impl Strategy<Value = AStatus> {
         (prop::option::weighted(0.6, millis()), prop::option::weighted(0.6, millis()), prop::option::weighted(0.5, num()), prop::option::weighted(0.5, secs())),
         (prop::option::weighted(0.3, num()), prop::option::weighted(0.3, text()), prop::option::weighted(0.5, nonempty_text())),
         any::<bool>(),
-        prop_oneof![1 => Just(0u64), 2 => any::<u64>()],
+        (prop_oneof![1 => Just(0u64), 2 => any::<u64>()], prop_oneof![2 => Just(0u8), 1 => any::<u8>()]),
     )
         .prop_map(
-            |((volume, state, repeat, random, consume), (single, playlist, playlistlength), (song, nextsong), (elapsed_ms, duration_ms, bitrate, xfade), (updating_db, error, partition), extras, shuffle)| AStatus {
+            |((volume, state, repeat, random, consume), (single, playlist, playlistlength), (song, nextsong), (elapsed_ms, duration_ms, bitrate, xfade), (updating_db, error, partition), extras, (shuffle, dur_style))| AStatus {
                 volume,
                 state,
                 repeat,
@@ -704,6 +707,7 @@ fn status() -> impl Strategy<Value = AStatus> {
                 partition,
                 extras,
                 shuffle,
+                dur_style,
             },
         )
 }
